@@ -333,7 +333,7 @@ from mc import domains as D
 from pykdebugparser.traces_parser import TracesParser
 names = json.loads(sys.stdin.read())
 BASE_S = (0x1111, 0x2222, 0x3333, 0x4444)
-wide = (1 << 31, (1 << 32) + 5, 1 << 63, (1 << 64) - 1)
+wide = (1 << 31, (1 << 32) + 5, 1 << 63, (1 << 64) - 1, 0xff, 0x7)      # the last two: several low flag bits at once
 out = {}
 for name in names:
     base, _ = D.in_domain(name, 'se', BASE_S, (0, 0, 0, 0), 1)
@@ -368,20 +368,30 @@ def judge_c_data_model(names):
     import json
     import subprocess
     import sys
+    import os
     got = {}
-    for model in ('lp64', 'llp64'):
-        r = subprocess.run([sys.executable, '-c', DATAMODEL_CHILD, model], input=json.dumps(list(names)), capture_output=True, text=True, timeout=600)
+    # 'lp64@seedN': the same host with another string-hash seed (the interpreter's per-process randomisation)
+    for model in ('lp64', 'llp64', 'lp64@seed1', 'lp64@seed4242'):
+        env = dict(os.environ)
+        if '@seed' in model:
+            env['PYTHONHASHSEED'] = model.split('@seed')[1]
+        r = subprocess.run([sys.executable, '-c', DATAMODEL_CHILD, model.split('@')[0]], input=json.dumps(list(names)), capture_output=True, text=True, timeout=600, env=env)
         if r.returncode != 0:
             return [('harness:datamodel-child-failed', {'decoder': names[0]}, {'model': model, 'stderr': r.stderr[-300:]})], 0
         got[model] = json.loads(r.stdout.strip().splitlines()[-1])
     bad = []
     n = 0
     for name in names:
-        for a, b in zip(got['lp64'][name], got['llp64'][name]):
-            n += 1
-            if a != b:
-                bad.append((f'host-dependent-output:c-data-model@{name}', {'decoder': name, 'start': [hex(x) for x in a[0]], 'end': [hex(x) for x in a[1]]},
-                            {'lp64_host': a[2], 'llp64_host': b[2]}))
+        for other, what in (('llp64', 'c-data-model'), ('lp64@seed1', 'hash-seed-of-the-process'), ('lp64@seed4242', 'hash-seed-of-the-process')):
+            hit = False
+            for a, b in zip(got['lp64'][name], got[other][name]):
+                n += 1
+                if a != b:
+                    bad.append((f'host-dependent-output:{what}@{name}', {'decoder': name, 'start': [hex(x) for x in a[0]], 'end': [hex(x) for x in a[1]]},
+                                {'this_process': a[2], 'other_process': b[2], 'other': other}))
+                    hit = True
+                    break
+            if hit:
                 break
     return bad, n
 
@@ -419,7 +429,7 @@ class C18(Check):
             'restored after each case. Inputs: every BSD decoder x END error word 0..255 and 9999; every BSD decoder x every numeric START position x value 0..64 (a word that a new code path looks up in a host table shows here); sigaction x signal 0..40; '
             'socket/socketpair/socket_delegate x family 0..45 x type 0..7; get/setsockopt x level {0,1,6,0xffff} x every declared '
             'SO_ option + 2 undeclared. Oracle: the rendered text (or the exception type) is identical under every configuration. '
-            'Plus the log / trace / event lines of one version-3 dump (log records near midnight) with the timezone option unset and set, under the host time zones UTC, EST5EDT, NZST-12NZDT, IST-5:30: identical. Plus every BSD decoder with words 2^31, 2^32+5, 2^63, 2^64-1 in each numeric START position and in the END return word, in two child interpreters, one of which has ctypes.c_long / c_ulong replaced by the 32-bit types before the library is imported (an LLP64 host): identical. Plus child interpreters started under three host locale settings (UTF-8 locale; C locale without coercion, i.e. ASCII file-system and default text encoding; POSIX with UTF-8 mode) formatting one dump with non-ASCII path / thread name / global string / process name and loading one UTF-8 code-table file: identical. Plus a static scan of every import in pykdebugparser/** against the list of host-dependent stdlib modules: anything '
+            'Plus the log / trace / event lines of one version-3 dump (log records near midnight) with the timezone option unset and set, under the host time zones UTC, EST5EDT, NZST-12NZDT, IST-5:30: identical. Plus every BSD decoder with words 2^31, 2^32+5, 2^63, 2^64-1 in each numeric START position and in the END return word, in two child interpreters, one of which has ctypes.c_long / c_ulong replaced by the 32-bit types before the library is imported (an LLP64 host), two more under other string-hash seeds (PYTHONHASHSEED): identical. Plus child interpreters started under three host locale settings (UTF-8 locale; C locale without coercion, i.e. ASCII file-system and default text encoding; POSIX with UTF-8 mode) formatting one dump with non-ASCII path / thread name / global string / process name and loading one UTF-8 code-table file: identical. Plus a static scan of every import in pykdebugparser/** against the list of host-dependent stdlib modules: anything '
             'beyond the three modelled seams is a violation. states = configurations; transitions = renders; non-trivial = input '
             'whose rendering shows a host-table name under at least one configuration.')
     assumptions = ('the host is modelled by the interpreter tables the code imports today plus the import scan; a dependency through '
